@@ -8,6 +8,7 @@ import (
 	"runtime"
 	"syscall"
 
+	"github.com/feichai0017/NoKV/utils/verifhook"
 	"github.com/feichai0017/NoKV/vfs"
 )
 
@@ -42,6 +43,7 @@ func AcquireDirLock(dir string, fs vfs.FS) (*DirLock, error) {
 // file was unlinked by a releasing holder between our open and our flock, in
 // which case the lock we got is on a dead inode and must not be trusted.
 func acquireDirLockOnce(dir, lockPath string, fs vfs.FS) (lock *DirLock, retry bool, err error) {
+	verifhook.Yield("utils.AcquireDirLock.open")
 	f, err := fs.OpenFileHandle(lockPath, os.O_CREATE|os.O_RDWR, 0o600)
 	if err != nil {
 		return nil, false, err
@@ -56,6 +58,7 @@ func acquireDirLockOnce(dir, lockPath string, fs vfs.FS) (lock *DirLock, retry b
 	if !ok {
 		return nil, false, fmt.Errorf("dirlock: file %q does not expose descriptor", lockPath)
 	}
+	verifhook.Yield("utils.AcquireDirLock.flock")
 	if err := syscall.Flock(int(fd), syscall.LOCK_EX|syscall.LOCK_NB); err != nil {
 		if errors.Is(err, syscall.EWOULDBLOCK) {
 			return nil, false, fmt.Errorf("dirlock: directory %q already in use", dir)
@@ -65,11 +68,13 @@ func acquireDirLockOnce(dir, lockPath string, fs vfs.FS) (lock *DirLock, retry b
 	// Release removes LOCK while it still holds the flock. If the path no
 	// longer names the file we locked, another contender may create and lock
 	// a fresh LOCK file: drop this descriptor and start over.
+	verifhook.Yield("utils.AcquireDirLock.check")
 	current, err := lockFileCurrent(f, lockPath, fs)
 	if err != nil {
 		return nil, false, err
 	}
 	if !current {
+		verifhook.Yield("utils.AcquireDirLock.retry")
 		return nil, true, nil
 	}
 	if err := f.Truncate(0); err == nil {
@@ -111,16 +116,19 @@ func (l *DirLock) Release() error {
 	// lock the inode we are about to unlink and believe it owns the directory
 	// (AcquireDirLock re-checks the path after flock).
 	fs := vfs.Ensure(l.fs)
+	verifhook.Yield("utils.DirLock.Release.remove")
 	if err := fs.Remove(l.path); err != nil && !errors.Is(err, os.ErrNotExist) {
 		firstErr = err
 	}
 	if fd, ok := vfs.FileFD(l.file); ok {
+		verifhook.Yield("utils.DirLock.Release.unlock")
 		if err := syscall.Flock(int(fd), syscall.LOCK_UN); err != nil && firstErr == nil {
 			firstErr = err
 		}
 	} else if firstErr == nil {
 		firstErr = fmt.Errorf("dirlock: file %q does not expose descriptor", l.path)
 	}
+	verifhook.Yield("utils.DirLock.Release.close")
 	if err := l.file.Close(); err != nil && firstErr == nil {
 		firstErr = err
 	}
